@@ -5,6 +5,7 @@ pub mod clock;
 #[cfg(feature = "metric_log")]
 pub mod fileobs;
 pub mod recorder;
+pub mod sync;
 
 /// Crate-private statistic types (leap array, sliding window, resource node, default slots).
 pub use crate::core::stat::verif_exports as stat;
